@@ -277,10 +277,28 @@ def c14f(ctx, tu):
                     if e["e"] in ("call", "co_yield", "co_return") and any(("['param', %d," % i) in str(e.get("args")) + str(e.get("x"))
                                                                            for i in refs):
                         bad.append((e, fn.rec["params"][[i for i in refs if ("['param', %d," % i) in str(e.get("args")) + str(e.get("x"))][0]]["n"]))
-        ctx.ob("C14.f", fn.qe, not bad, pattern=fn.pat, unit=tu.name, inst=fn.q,
-               detail="" if not bad else "the coroutine uses its reference parameter `%s` after a suspension point; for a "
+        # the defect belongs to whoever supplies the reference: when the coroutine is only the forwarding target of
+        # a plain (non-coroutine) member of the same class that passes its own parameter on, name that member
+        construct, pat = fn.qe, fn.pat
+        if bad:
+            cur, pi = fn, [i for i in refs if fn.rec["params"][i]["n"] == bad[0][1]][0]
+            for _ in range(3):
+                ups = [(cf, e) for cf, b, e in tu.callers().get(cur.id, ()) if cf.is_lib and not cf.rec.get("coro")]
+                pats = set(cf.pat for cf, e in ups)
+                if len(pats) != 1:
+                    break
+                cf, e = ups[0]
+                if cf.qe.rsplit("::", 1)[0] != cur.qe.rsplit("::", 1)[0]:
+                    break            # only a helper of the same class is folded into its entry point
+                a = (e.get("args") or [None] * (pi + 1))[pi] if pi < len(e.get("args") or ()) else None
+                if not (isinstance(a, list) and a[:1] == ["param"]):
+                    break
+                cur, pi = cf, a[1]
+                construct, pat = cf.qe, cf.pat
+        ctx.ob("C14.f", construct, not bad, pattern=pat, unit=tu.name, inst=fn.q,
+               detail="" if not bad else "the coroutine %suses its reference parameter `%s` after a suspension point; for a "
                "generator or a lazily started task the referenced object (the dispatch function's parameter tuple) is gone "
-               "by then (at %s)" % (bad[0][1], short_loc(bad[0][0].get("loc", ""))))
+               "by then (at %s)" % ("" if construct == fn.qe else fn.qe + " ", bad[0][1], short_loc(bad[0][0].get("loc", ""))))
     c14f_args(ctx, tu)
     return n
 
